@@ -23,6 +23,11 @@ pub trait Sut {
     }
     /// Proposes a random applicable operation (random driver).
     fn random_op(&self, rng: &mut Rng) -> Value;
+    /// Operations that wind the system down at the end of a random run
+    /// (drop what is alive, destroy the primitive) so that those paths are recorded too.
+    fn cleanup_ops(&self) -> Vec<Value> {
+        Vec::new()
+    }
 }
 
 #[derive(Default)]
